@@ -1,6 +1,7 @@
 import SFV.Model.Graph
+import SFV.Model.Mapper
 import SFV.Model.Proto
-open SFV SFV.Proto SFV.Graph
+open SFV SFV.Proto SFV.Graph SFV.Mapper
 
 def showList (l : List Nat) : String := if l.isEmpty then "-" else ",".intercalate (l.map toString)
 def sortN (l : List Nat) : List Nat := l.mergeSort (· ≤ ·)
@@ -44,4 +45,53 @@ def step (g : G) : List String → G × String
   | ["srcsnk"] => (g, s!"{showList (sortN g.sources)}|{showList (sortN g.sinks)}")
   | _ => (g, "bad-op")
 
-def main : IO Unit := runStateful G.empty step
+/-! ### GraphMapper -/
+
+def showDict {α : Type} (d : Dict α) (f : α → String) : String :=
+  if d.isEmpty then "-" else
+  ";".intercalate (((d.map (fun e => (e.1, s!"{e.1}:{f e.2}"))).mergeSort (fun a b => a.1 ≤ b.1)).map (·.2))
+
+def mdump (m : M) : String :=
+  s!"{dump m.toks}#{dump m.ports}#{showDict m.portTokens (fun l => showList (sortN l))}#{showDict m.avail (fun b => if b then "1" else "0")}#{showDict m.inst toString}#{showDict m.portIds (fun l => showList (sortN l))}#{if m.consistentB then "consistent" else "INCONSISTENT"}"
+
+def parseInfo : List String → Option Info
+  | [p, pid, t, k, a] =>
+      match p.toNat?, pid.toNat?, t.toNat?, k.toNat? with
+      | some p, some pid, some t, some k => some ⟨p, pid, t, k, a = "1"⟩
+      | _, _, _, _ => none
+  | _ => none
+
+structure DSt where
+  g : G := G.empty
+  m : M := M.empty
+
+def mstep (m : M) : List String → M × String
+  | ["mnew"] => (M.empty, "ok")
+  | ["mroot", t] =>
+      match t.toNat? with
+      | some t => let m' := m.moveToRoot t; (m', mdump m')
+      | none => (m, "bad-op")
+  | ["mrep", p, n, k, a] =>
+      match p.toNat?, n.toNat?, k.toNat? with
+      | some p, some n, some k =>
+          match m.replaceToken p n k (a = "1") with
+          | some m' => (m', mdump m')
+          | none => (m, "EXC")
+      | _, _, _ => (m, "bad-op")
+  | "madd" :: rest =>
+      match parseInfo (rest.take 5), (if rest.length = 10 then (parseInfo (rest.drop 5)).map some else if rest.length = 5 then some none else none) with
+      | some a, some b =>
+          match m.add a b with
+          | some m' => (m', mdump m')
+          | none => (m, "EXC")
+      | _, _ => (m, "bad-op")
+  | _ => (m, "bad-op")
+
+def dstep (d : DSt) (ws : List String) : DSt × String :=
+  match ws with
+  | w :: _ =>
+      if w.startsWith "m" then let r := mstep d.m ws; ({ d with m := r.1 }, r.2)
+      else let r := step d.g ws; ({ d with g := r.1 }, r.2)
+  | [] => (d, "bad-op")
+
+def main : IO Unit := runStateful ({} : DSt) dstep
